@@ -541,7 +541,8 @@ def meta(tier):
         bounds=dict(items="<= 3 items: every multiplicity vector and signed permutation with repetition (quick: up to relabelling); thorough adds four distinct items for 16 (encoding 1) / 4 (encoding 2) sign patterns",
                     sizes="bin and item sizes fully symbolic in 1..10^12 (every storage class int8..int64 and its edges inside one query family)",
                     item_step="encoding 1: the extracted body of the item loop from an arbitrary feasible current bin with K <= 3 (thorough 5) boxes of arbitrary sizes: covers runs of any "
-                              "length in which no bin receives more than K+1 items (loop induction)",
+                              "length in which no bin receives more than K+1 items (loop induction); encoding 2: the same from every distribution of K <= 3 (thorough 4) rows over the open bins "
+                              "(all restricted-growth patterns), with the bin_starts / bin_ends ranges the decoder maintains",
                     encodings=[1, 2], prior_state="destination packing, bin_starts, bin_ends start as arbitrary values of their dtype"),
         outside=["more items than the bound", "lower_bound part of the constructor (C03)"],
         assumptions=["quick tier only: item rows of the symbolic instance are interchangeable, so permutations are enumerated up to relabelling of ids with equal multiplicity (thorough enumerates all)",
